@@ -21,6 +21,17 @@ KINDS = [
  "an error path: what is left behind AFTER an error was returned or a fault happened (partially updated state, a retry of the same call, cleanup, the next call on the same object or directory). The first, failing call must itself still behave correctly.",
  "the INTERACTION of two features that are each tested alone: e.g. sub-directories x displaced slices, non-saved PAR1 entries x missing volumes, duplicate slices x several goroutines, comment packets x unknown packets, Unicode names x repair, empty files x anything.",
 ]
+NOTES = {
+ 'C03': "the defect must be in what the library's Verify reports (par2 package), not in the command-line front end.",
+ 'C04': "the defect must be observable through Verify / Repair of a PAR1 set, not only through the staged Encoder API.",
+ 'C05': "the defect must show in the bytes Create writes for given inputs, not in how the command line or working directory resolves path spellings (another property covers that).",
+ 'C06': "stay inside the quantifier: recovery-block exponents of at most a few thousand (never above 65534).",
+ 'C08': "if the prescribed trigger kind cannot apply to pure arithmetic, an operand-only defect in a function or operand region not attacked before is acceptable.",
+ 'C13': "the trigger must be one of the corruptions the statement names (bit flips, truncation, garbage, emptied or deleted files, an interrupted Create) applied to an index, recovery or data file.",
+ 'C15': "a change that only READS outside the directory does not break this property; it must create, modify or delete something outside.",
+ 'C16': "the defect must show in a single Verify or Repair call on a directory (that is what the statement quantifies over), not only when a Decoder object is re-used.",
+ 'C20': "the property is about the exit status of the `par` command, one process per invocation: the defect must be observable by running the built command (possibly several times on the same directory), not only through library calls inside one process.",
+}
 for i, p in enumerate(props):
     pid = p['id']
     wt = '/tmp/seed%d-%s' % (rnd, pid)
@@ -66,6 +77,6 @@ Ideas already used for THIS property:
 Ideas already used for OTHER properties of the same code base (avoid these too):
 {others}
 Never use `git stash` (it is shared with sibling worktrees).
-"""
+""" + ('Note for this property: ' + NOTES[pid] + '\n' if pid in NOTES else '')
     open(os.path.join(out, pid + '.txt'), 'w').write(t)
 print('wrote', len(props), 'prompts to', out)
